@@ -437,36 +437,53 @@ fn gopt_time(rng: &mut Rng) -> Option<GTime> {
 }
 /// unsigned value whose minimal class is exactly `size`?  No: any value representable in `size`
 /// bytes; the width used by the encoder decides the class.
+/// unsigned value representable in `size` bytes; boundary patterns at every width ≤ size
+/// (leading byte 00 / 7f / 80 / ff of a w-byte encoding)
 fn guns(rng: &mut Rng, size: usize) -> u64 {
-    let bits = 8 * size as u32;
+    let w = if rng.chance(1, 2) { size } else { rng.range(1, size) };
+    let bits = 8 * w as u32;
     let max = if bits == 64 { u64::MAX } else { (1u64 << bits) - 1 };
-    match rng.below(6) {
+    let low = if bits == 8 { 0 } else { rng.next() & (max >> 8) };
+    match rng.below(8) {
         0 => 0,
         1 => max,
         2 => max >> 1,
         3 => (max >> 1) + 1,
-        4 => rng.below(256) as u64 & max,
+        4 => (0x7fu64 << (bits - 8)) | low,
+        5 => (0x80u64 << (bits - 8)) | low,
+        6 => (0xffu64 << (bits - 8)) | low,
         _ => rng.next() & max,
     }
 }
+/// signed value representable in `size` bytes; boundary patterns at every width ≤ size
 fn gint(rng: &mut Rng, size: usize) -> i64 {
-    let bits = 8 * size as u32;
+    let w = if rng.chance(1, 2) { size } else { rng.range(1, size) };
+    let bits = 8 * w as u32;
     let (min, max) = if bits == 64 { (i64::MIN, i64::MAX) } else { (-(1i64 << (bits - 1)), (1i64 << (bits - 1)) - 1) };
-    match rng.below(8) {
+    let lowmask: u64 = if bits == 8 { 0 } else if bits == 64 { u64::MAX >> 8 } else { (1u64 << (bits - 8)) - 1 };
+    let low = rng.next() & lowmask;
+    // a w-byte two's complement pattern with the given leading byte
+    let with_lead = |lead: u64| -> i64 {
+        let u = (lead << (bits - 8)) | low;
+        if bits == 64 {
+            u as i64
+        } else if u >> (bits - 1) != 0 {
+            (u as i64) - (1i64 << bits)
+        } else {
+            u as i64
+        }
+    };
+    match rng.below(10) {
         0 => 0,
         1 => -1,
         2 => min,
         3 => max,
-        4 => rng.below(128) as i64,
-        5 => -(rng.below(129) as i64),
-        _ => {
-            let r = rng.next() as i64;
-            if bits == 64 {
-                r
-            } else {
-                r.rem_euclid(1i64 << bits) + min
-            }
-        }
+        4 => with_lead(0x7f),
+        5 => with_lead(0x80),
+        6 => with_lead(0xff),
+        7 => with_lead(0x00),
+        8 => rng.below(128) as i64,
+        _ => with_lead(rng.byte() as u64),
     }
 }
 fn gvalue(rng: &mut Rng) -> GValue {
@@ -637,11 +654,13 @@ impl<'a> Enc<'a> {
     }
     /// width that selects class `size` (narrowest class holding the width) and can hold the value
     fn class_width(&mut self, size: usize, minw: usize) -> usize {
-        let lo = (size / 2 + 1).max(minw);
+        let lo = (size / 2 + 1).max(minw).min(size);
         if self.plain {
             size
+        } else if self.rng.chance(1, 2) {
+            lo
         } else {
-            self.rng.range(lo.min(size), size)
+            self.rng.range(lo, size)
         }
     }
 
